@@ -1050,6 +1050,114 @@ fn gen_rich(ctx: &Ctx, sink: &mut dyn FnMut(String)) {
     }
 }
 
+// ---------- c05-cse: fixed-range (CSE) array formulas on a cycle through their own ranges ----------
+
+fn gen_cse(ctx: &Ctx, sink: &mut dyn FnMut(String)) {
+    let mut rng = Rng::new(ctx.seed ^ 0xC05_0002);
+    // the integrator's witness first
+    sink("c05 cse 1.1.2.2.0.0.0".to_string());
+    let count = if ctx.tier == Tier::Quick { 60 } else { 3000 };
+    for _ in 0..count {
+        // row, column, width, height, column shift of the range that is read, kind, user-model flag
+        sink(format!(
+            "c05 cse {}.{}.{}.{}.{}.{}.{}",
+            rng.range(1, 6), rng.range(1, 6), rng.range(1, 3), rng.range(1, 3), rng.range(0, 2), rng.below(3), rng.below(2)
+        ));
+    }
+}
+
+fn eval_cse(req: &str) -> ImplOut {
+    let f: Vec<&str> = req.split(' ').collect();
+    let n: Vec<i32> = f.get(2).map(|x| x.split('.').filter_map(|y| y.parse().ok()).collect()).unwrap_or_default();
+    if n.len() != 7 {
+        return ImplOut::new("bad-request".into()).trivial();
+    }
+    let (r, c, w, h, shift, kind, user) = (n[0], n[1], n[2], n[3], n[4].min(n[2] - 1).max(0), n[5], n[6]);
+    let a1 = |r: i32, c: i32| format!("{}{}", col_name(c), r);
+    // cells that are on the cycle: (position, is the anchor of a w x h array)
+    let mut arrays: Vec<(i32, i32, i32, i32, String)> = vec![];
+    let mut scalars: Vec<(i32, i32, String)> = vec![];
+    match kind {
+        0 => arrays.push((r, c, w, h, format!("={}:{}+1", a1(r, c + shift), a1(r + h - 1, c + shift + w - 1)))),
+        1 => {
+            // two arrays that read each other's ranges
+            arrays.push((r, c, w, h, format!("={}:{}+1", a1(r, c + 4), a1(r + h - 1, c + 4 + w - 1))));
+            arrays.push((r, c + 4, w, h, format!("={}:{}*2", a1(r, c), a1(r + h - 1, c + w - 1))));
+        }
+        _ => {
+            // the array reads a scalar cell that reads the array's range
+            arrays.push((r, c, w, h, format!("={}+1", a1(r, c + 4))));
+            scalars.push((r, c + 4, format!("=SUM({}:{})", a1(r, c), a1(r + h - 1, c + w - 1))));
+        }
+    }
+    let snapshot = |m: &Model| -> Vec<String> {
+        let mut out = vec![];
+        for rr in 1..12 {
+            for cc in 1..14 {
+                out.push(format!("{:?}", m.get_cell_value_by_index(0, rr, cc)));
+            }
+        }
+        out
+    };
+    let mut out = ImplOut::new(String::new());
+    let m: Model = if user == 1 {
+        let mut um = ironcalc_base::UserModel::new_empty("c05", "en", "UTC", "en").unwrap();
+        um.set_user_input(0, 9, 9, "1").unwrap();
+        for (rr, cc, t) in &scalars {
+            let _ = um.set_user_input(0, *rr, *cc, t);
+        }
+        for (rr, cc, ww, hh, t) in &arrays {
+            let _ = um.set_user_array_formula(0, *rr, *cc, *ww, *hh, t);
+        }
+        Model::from_bytes(&um.get_model().to_bytes(), "en").unwrap()
+    } else {
+        let mut m = Model::new_empty("c05", "en", "UTC", "en").unwrap();
+        for (rr, cc, t) in &scalars {
+            let _ = m.set_user_input(0, *rr, *cc, t.clone());
+        }
+        for (rr, cc, ww, hh, t) in &arrays {
+            let _ = m.set_user_array_formula(0, *rr, *cc, *ww, *hh, t);
+        }
+        m.evaluate();
+        m
+    };
+    let is_circ = |m: &Model, rr: i32, cc: i32| matches!(m.get_cell_value_by_index(0, rr, cc), Ok(ironcalc_base::cell::CellValue::String(ref s)) if s == "#CIRC!");
+    // self-reference only exists when the range that is read really overlaps the array's own range
+    let overlapping = kind != 0 || shift < w;
+    if overlapping {
+        for (rr, cc, ww, hh, t) in &arrays {
+            for i in 0..*hh {
+                for j in 0..*ww {
+                    // element (i,j) of `range+1` reads one cell; only the elements whose source lies in
+                    // the array's own range are circular
+                    if kind == 0 && shift + j >= w {
+                        continue;
+                    }
+                    if !is_circ(&m, rr + i, cc + j) {
+                        out = out.fail("c05:cse-array-reads-own-range:no-circ", &format!(
+                            "array {} {ww}x{hh} `{t}`: cell {} holds {:?}", a1(*rr, *cc), a1(rr + i, cc + j), m.get_cell_value_by_index(0, rr + i, cc + j)));
+                    }
+                }
+            }
+        }
+        for (rr, cc, t) in &scalars {
+            if !is_circ(&m, *rr, *cc) {
+                out = out.fail("c05:cse-array-reads-own-range:no-circ", &format!("cell {} `{t}` holds {:?}", a1(*rr, *cc), m.get_cell_value_by_index(0, *rr, *cc)));
+            }
+        }
+    }
+    // evaluating again changes nothing
+    let before = snapshot(&m);
+    let mut m2 = m;
+    m2.evaluate();
+    m2.evaluate();
+    if snapshot(&m2) != before {
+        out = out.fail("c05:cse-array-reads-own-range:value-changes-on-evaluate", &format!("kind {kind}: the sheet changes when evaluate() is called again"));
+    }
+    out = out.tag(&format!("kind:{kind}")).tag(if user == 1 { "api:UserModel" } else { "api:Model" });
+    out
+}
+
 pub fn suites() -> Vec<Suite> {
     vec![
         Suite {
@@ -1058,6 +1166,14 @@ pub fn suites() -> Vec<Suite> {
             modelled: true,
             gen: gen_wb,
             eval: eval_wb,
+            exhaustive: never,
+        },
+        Suite {
+            name: "c05-cse",
+            rule: "fixed-range (CSE) array formulas on a dependency cycle through their own ranges: an array that reads (part of) its own range, two arrays that read each other's ranges, an array that reads a scalar formula which reads the array's range; on Model (one evaluate) and UserModel; oracle: every cell of the arrays and the scalar shows #CIRC!, and evaluating again changes nothing",
+            modelled: false,
+            gen: gen_cse,
+            eval: eval_cse,
             exhaustive: never,
         },
         Suite {
